@@ -330,6 +330,31 @@ def gen_invalid(ctx, rng):
     ctx.violation("invalid-accepted", f"invalid specification ({how}) {spec!r} as {typ} was accepted: {ads}", case, klass=how)
 
 
+def probe_anywhere(ad, ex, problems, txt):
+    """';anywhere' on a 5' (3') adapter: partial matches at the end that is usually not allowed are found too (guide,
+    search parameters). Probe: an error-free adapter prefix at the 3' end of the read (suffix at the 5' end)."""
+    seq = ex["seq"]
+    if not ex["fa"] or not set(seq) <= set("ACGT") or len(seq) < 4:
+        return
+    non_n = len(seq)
+    if int(ex["rate"] * non_n) > 0 or ex["rate"] * 2 >= 1:
+        return
+    k = max(ex["o"], (len(seq) + 1) // 2)
+    if k >= len(seq):
+        return
+    flank = "GTCAGTCAGTCA"
+    front = ex["cls"].__name__ in ("FrontAdapter", "RightmostFrontAdapter")
+    piece = seq[:k] if front else seq[-k:]
+    if piece in flank or seq[:3] in flank or seq[-3:] in flank:
+        return
+    read = flank + piece if front else piece + flank
+    m = ad.match_to(read)
+    want = (len(flank), len(read)) if front else (0, k)
+    if m is None or m.errors != 0 or (m.rstart, m.rstop) != want:
+        problems.append(("behaviour", f"{txt}: with 'anywhere' an error-free {'prefix' if front else 'suffix'} of {k} adapter bases at the "
+                         f"{'3' if front else '5'}' end of {read!r} must be found at {want}, got {m}"))
+
+
 def gen_and_check(ctx, rng):
     from cutadapt.parser import make_adapters_from_specifications
     import cutadapt.adapters as A
@@ -362,6 +387,8 @@ def gen_and_check(ctx, rng):
                 check_single(ads[0], ex, spec, problems)
                 if not problems:
                     probe_behaviour(ads[0], ex, problems, spec)
+                if not problems:
+                    probe_anywhere(ads[0], ex, problems, spec)
         elif mode < 0.75:
             if typ == "anywhere":
                 typ = "back"
